@@ -335,7 +335,7 @@ fn huge_chunk_case(rep: &Report, idx: usize, seed: u64) -> Option<String> {
                 (cfg, rng.bytes(l), "min>=3MiB")
             }
         };
-        let comp = *rng.pick(&[crate::gen::Comp::None, crate::gen::Comp::Brotli(1), crate::gen::Comp::Zstd(1)]);
+        let comp = *rng.pick(&[crate::gen::Comp::None, crate::gen::Comp::Brotli(1), crate::gen::Comp::Zstd(1), crate::gen::Comp::Lzma(1)]);
         let spec = scn::CompressSpec::new(cfg, comp, 64);
         let arch = match scn::make_archive(&dir, "a", &source, &spec) {
             Ok(a) => a,
@@ -443,6 +443,21 @@ pub fn run(tier: Tier, seed: u64) -> i32 {
             let v = one_case(&rep, 700_000 + i, &case, &Injection::none(), rng.next_u64() & !32, true);
             (case, v)
         });
+        // ... and per codec one source of incompressible chunks far larger than any internal
+        // buffer of an encoder / decoder (an encoder that is handed a chunk with write()
+        // instead of write_all() takes only part of it).
+        let fams = [crate::gen::Comp::Brotli(1), crate::gen::Comp::Zstd(1), crate::gen::Comp::Lzma(1), crate::gen::Comp::Brotli(5), crate::gen::Comp::Zstd(7), crate::gen::Comp::Lzma(3)];
+        let v2 = par_map(fams.len(), crate::util::ncpu(), |i| {
+            let mut rng = Rng::new(seed).fork(0x01bb + i as u64);
+            let mut case = ccommon::gen_case(&mut rng, false, true);
+            case.spec.comp = fams[i];
+            case.spec.cfg = r1::Cfg::fixed(rng.urange(90_000, 300_000));
+            case.src_len = rng.urange(400_000, 700_000);
+            case.src_class = if i < 3 { crate::gen::SrcClass::Random } else { crate::gen::SrcClass::ZeroRuns };
+            let v = one_case(&rep, 710_000 + i, &case, &Injection::none(), rng.next_u64() & !32, true);
+            (case, v)
+        });
+        let v: Vec<_> = v.into_iter().chain(v2).collect();
         for (case, v) in v {
             rep.seen("compression_levels", case.spec.comp.describe());
             if let Some(why) = v {
